@@ -108,6 +108,12 @@ def check_uniform(F, rep):
             rep.fail("ANCHOR", "uniform:" + key, "new/new_inclusive/sample missing")
             continue
         n += 1
+        # closed world: rand calls whatever the impl defines; a provided method that is overridden (sample_single, sample_single_inclusive)
+        # is a second sampler that none of the END / MONO / VOL laws below has looked at
+        extra_m = sorted(it["n"] for it in im["items"] if it["kind"] == "Fn" and it["n"] not in ("new", "new_inclusive", "sample"))
+        if extra_m:
+            rep.fail("SIB-NAME", "uniform:%s overrides %s" % (key, ", ".join(extra_m)),
+                     "the sampler overrides provided UniformSampler method(s) %s: a second sampling path with no range / end-point / volume rule" % extra_m, F.loc(b_smp))
         is_hue = sym._adt_of_type(xt).startswith("hues::")
         is_alpha = sym._adt_of_type(xt).endswith("::Alpha")
         try:
